@@ -278,9 +278,12 @@ namespace sbepp
 #    define SBEPP_ASSERT(expr) assert(expr)
 #endif
 
+// `begin <= end` is checked explicitly because otherwise their negative
+// difference, e.g. for a view located using a corrupted length/size of the
+// preceding one, turns into a huge unsigned value
 #define SBEPP_SIZE_CHECK(begin, end, offset, size) \
     SBEPP_ASSERT(                                  \
-        (begin)                                    \
+        (begin) && ((begin) <= (end))              \
         && (((offset) + (size)) <= static_cast<std::size_t>((end) - (begin))))
 
 //! @brief The main `sbepp` namespace
